@@ -87,3 +87,23 @@ package sm9
 //@   requires opts.newCipher != nil
 //@   heapnonnil
 //@   modifies everything
+
+// ---- decryption core (C10): K = KDF(C1 || w || uid) is split into K1 = key[:klen1] and K2 = the rest;
+// the MAC is taken over C2 || K2 and compared with C3 in constant time; only after a successful
+// comparison is the payload decrypted, with K1, from C2.
+//@ func decrypt property C10,C13
+//@   coverreturns
+//@   requires priv != nil && priv.internal != nil && opts != nil && len(c2) <= 4000000000
+//@   inlinecall sm3.New
+//@   bind after call GetKeySize#1: K1L := result
+//@   bind after call UnwrapKey#1: KA := objof(result0)
+//@   bind after call UnwrapKey#1: KO := offof(result0)
+//@   bind after call ConstantTimeCompare#1: CMP := result
+//@   assert before call UnwrapKey#1: arg3 == K1L + 32 && sameslice(arg2, c1)
+//@   assert before call Write#1: sameslice(arg0, c2)
+//@   assert before call Write#2: objof(arg0) == KA && offof(arg0) == KO + K1L && len(arg0) == 32
+//@   assert before call ConstantTimeCompare#1: sameslice(arg0, c3) && len(arg1) == 32
+//@   assert before call Decrypt#1: objof(arg0) == KA && offof(arg0) == KO && len(arg0) == K1L && sameslice(arg1, c2)
+//@   ensures err == nil ==> CMP == 1
+//@   heapnonnil
+//@   modifies everything
